@@ -66,6 +66,7 @@ class Contract:
         self.may_raise_exprs = []
         self.check_frame = True
         self.hooks = {}
+        self.exc_classes = []
         self.cuts = []
         self.callsites = {}
         self.check_raises = False
@@ -163,6 +164,12 @@ class Contract:
     def strings(self, **kw):
         for k, v in kw.items():
             self.lets[k] = ast.Constant(value=v)
+        return self
+
+    def exc_class_when(self, exc, cond, name, props=()):
+        """Every exceptional exit reached while `cond` holds must carry exception class `exc` unchanged
+        (e.g. the target's own exception must not be converted into another one)."""
+        self.exc_classes.append((exc, Clause(name, cond, top=True, props=props)))
         return self
 
     def assume_(self, name, expr, why):
